@@ -1,4 +1,222 @@
-import Kap.Spec.C08
+/-
+C08 — property theorems (every `theorem` here is a proof obligation, axiom-audited by `bin/check C08`).
+Helper lemmas: Kap/Proofs/C08.lean.
+
+Statement (properties.jsonl): with topic persistence on, after a restart from the storage as it stood at any
+moment, every alert ID resumes at the last non-OK level that was recorded for it (IDs whose last event was OK
+resume as OK), so processing the remaining data yields the same final topic state as an uninterrupted run, and
+handlers are told of every level the ID ends up in that differs from the last level they were told before the
+crash.
+
+All theorems quantify over EVERY history `ops` (any length, any topics/ids), EVERY operation index `k` and EVERY
+sub-step index `j` of the operation in flight (`crashAt {} ops k j` — also the points that are not transaction
+boundaries), for the service started empty with `PersistTopics` on (`{}`).
+-/
+import Kap.Proofs.C08
 namespace Kap.Props.C08
 open Kap.C08
+
+/-! ### The disk: `bucket <topic> / key <id>` = durable last non-OK state -/
+
+/-- **After every completed operation the disk holds, for every id of every topic, the level last recorded for
+it** (absent = OK). -/
+theorem disk_tracks_last_non_ok (ops : List Op) (T id : String) :
+    (run {} ops).disk.level T id = lastLevel ops T id := by
+  rw [run_disk _ rfl, foldl_diskStep_level]; rfl
+
+/-- … and a record exists exactly when the last thing recorded was a non-OK `Collect` or a reconciling
+`UpdateEvent` (an OK `Collect` clears the record; nothing is left behind for an id that recovered). -/
+theorem disk_record_cleared_on_ok (ops : List Op) (T id : String) :
+    ((run {} ops).disk T id).isSome = recordExpected ops T id := by
+  rw [run_disk _ rfl, foldl_diskStep_present]; rfl
+
+/-- The same holds for the disk AS IT STANDS AT ANY MOMENT: whatever sub-step the process dies in, the disk is the
+disk of the recorded history (the operation in flight counts iff its transaction committed). -/
+theorem disk_at_any_crash_point (ops : List Op) (k j : Nat) (T id : String) :
+    (crashAt {} ops k j).disk.level T id = lastLevel (recorded ops k (crashDone ops k j)) T id := by
+  rw [crashAt_disk, disk_tracks_last_non_ok]
+
+/-! ### Restart -/
+
+/-- **resume_level.** After a restart at ANY crash point every id of every topic resumes at the level last
+recorded for it; an id whose last recorded event was OK (or that was never seen) resumes as OK. -/
+theorem resume_level (ops : List Op) (k j : Nat) (T id : String) :
+    (crashAt {} ops k j).restart.mem.level T id = lastLevel (recorded ops k (crashDone ops k j)) T id :=
+  disk_at_any_crash_point ops k j T id
+
+/-- No phantom: an id the recorded history left at OK has no state at all after the restart. -/
+theorem no_phantom_after_restart (ops : List Op) (k j : Nat) (T id : String)
+    (h : recordExpected (recorded ops k (crashDone ops k j)) T id = false) :
+    (crashAt {} ops k j).restart.mem T id = none := by
+  have := disk_record_cleared_on_ok (recorded ops k (crashDone ops k j)) T id
+  rw [h, ← crashAt_disk] at this
+  show (crashAt {} ops k j).disk T id = none
+  cases hd : (crashAt {} ops k j).disk T id with
+  | none => rfl
+  | some e => rw [hd] at this; cases this
+
+/-- In an uninterrupted run the memory of every live (not dormant) topic shows the last recorded level. -/
+theorem uninterrupted_memory_tracks (ops : List Op) (T id : String) (hlive : dormant ops T = false) :
+    (run {} ops).mem.level T id = lastLevel ops T id := by
+  have hc := run_coherent {} rfl coherent_init ops T id
+  have hcl : (run {} ops).closed T = false := by rw [run_closed]; exact hlive
+  rw [← disk_tracks_last_non_ok]
+  rcases hc with h | ⟨h, _⟩
+  · exact h
+  · rw [hcl] at h; cases h
+
+/-- **same_final_state.** Restart at ANY crash point, process the remaining data: the disk is exactly the disk of
+the uninterrupted run over (recorded history ++ remaining data), and every topic that is live at the end shows the
+same level for every id as that uninterrupted run. For a crash after a completed operation
+(`crashDone = true`) the compared run is the uninterrupted run of the whole history `ops` (`survived_done`). -/
+theorem same_final_state (ops : List Op) (k j : Nat) (T id : String) :
+    (recover {} ops k j).disk = (run {} (survived ops k (crashDone ops k j))).disk ∧
+    (dormant (survived ops k (crashDone ops k j)) T = false →
+      (recover {} ops k j).mem.level T id = (run {} (survived ops k (crashDone ops k j))).mem.level T id) := by
+  have hp : (crashAt {} ops k j).restart.persist = true := by
+    show (crashAt {} ops k j).persist = true
+    rw [crashAt_persist]
+  have hdisk : (recover {} ops k j).disk = (run {} (survived ops k (crashDone ops k j))).disk := by
+    unfold recover survived
+    rw [run_append, run_disk _ hp, run_disk _ (by rw [run_persist])]
+    congr 1
+    exact crashAt_disk {} ops k j
+  refine ⟨hdisk, fun hlive => ?_⟩
+  rw [uninterrupted_memory_tracks _ T id hlive, ← disk_tracks_last_non_ok, ← hdisk]
+  have hc := run_coherent _ hp (coherent_restart (crashAt {} ops k j)) (ops.drop (k + 1)) T id
+  rcases hc with h | ⟨h, _⟩
+  · exact h
+  · -- the restarted run has closed no topic the uninterrupted run has not
+    exfalso
+    rw [run_closed] at h
+    have hu : dormant (survived ops k (crashDone ops k j)) T = true := by
+      unfold dormant survived
+      have := run_closed (run {} (recorded ops k (crashDone ops k j))) (ops.drop (k + 1)) T
+      rw [← run_append, run_closed] at this
+      rw [this]
+      exact dormantFrom_mono T _ _ _ (by intro hh; cases hh) h
+    rw [hlive] at hu; cases hu
+
+/-- For a crash after operation `k` completed, (recorded ++ remaining) is the whole history. -/
+theorem survived_done (ops : List Op) (k : Nat) (hk : k < ops.length) : survived ops k true = ops := by
+  unfold survived recorded
+  simp only [if_true, List.getElem?_eq_getElem hk, Option.toList_some]
+  rw [List.append_assoc]
+  have : [ops[k]] ++ List.drop (k + 1) ops = List.drop k ops := by
+    rw [List.drop_eq_getElem_cons hk]; rfl
+  rw [this, List.take_append_drop]
+
+/-! ### Handlers -/
+
+/-- `handlers_not_misled` at full strength: at EVERY crash point, what the handlers of a live topic were last told
+(before the crash and after it) is the level the id ends in. FALSE of the code (see the counterexample). -/
+def handlers_not_misled_stmt : Prop :=
+  ∀ (ops : List Op), (∀ op ∈ ops, op.announced = true) → ∀ (k j : Nat) (T id : String),
+    dormant (survived ops k (crashDone ops k j)) T = false →
+    lastTold (recover {} ops k j).told T id = (recover {} ops k j).mem.level T id
+
+/-- **handlers_not_misled, proved for every crash point outside the window** between the handler notification of
+a `Collect` and its storage transaction (hypothesis `inWindow = false`: an explicit decidable predicate on the
+crash point). Histories: every level change announced (`Collect`, `CloseTopic`, `RestoreTopic`); the silent
+`UpdateEvent` and `DeleteTopic` are covered by the theorems above but not by this one.
+Missing for the full statement: exactly the window — `Collect` would have to persist before it notifies. -/
+theorem handlers_not_misled_partial (ops : List Op) (ha : ∀ op ∈ ops, op.announced = true)
+    (k j : Nat) (hw : inWindow ops k j = false) (T id : String)
+    (hlive : dormant (survived ops k (crashDone ops k j)) T = false) :
+    lastTold (recover {} ops k j).told T id = (recover {} ops k j).mem.level T id := by
+  have hp : (crashAt {} ops k j).restart.persist = true := by
+    show (crashAt {} ops k j).persist = true
+    rw [crashAt_persist]
+  -- at the crash point the handlers know what is on disk
+  have hinf : Informed (crashAt {} ops k j).restart := by
+    intro T' i
+    show lastTold (crashAt {} ops k j).told T' i = (crashAt {} ops k j).disk.level T' i
+    by_cases h : (microsAt ops k).length ≤ j
+    · rw [crashAt_done {} ops k j h]
+      refine run_informed {} rfl informed_init _ (fun o ho => ?_) T' i
+      unfold recorded at ho
+      simp only [if_true, List.mem_append, Option.mem_toList] at ho
+      rcases ho with ho | ho
+      · exact ha o (List.mem_of_mem_take ho)
+      · exact ha o (List.mem_of_getElem? ho)
+    · obtain ⟨op, hop, hd, ht, _⟩ := crashAt_partial {} ops k j (by omega)
+      rw [hd, ht]
+      have hb : Informed (run {} (ops.take k)) :=
+        run_informed {} rfl informed_init _ (fun o ho => ha o (List.mem_of_mem_take ho))
+      have htold : toldAt op j = [] := by
+        unfold inWindow at hw
+        rw [hop] at hw
+        unfold microsAt at h
+        rw [hop] at h
+        cases op with
+        | collect T'' i' l t =>
+          simp [Op.micros, collectMicros] at h
+          simp at hw
+          simp [toldAt]; omega
+        | _ => rfl
+      rw [htold, List.append_nil]
+      exact hb T' i
+  have hfin : Informed (recover {} ops k j) :=
+    run_informed _ hp hinf _ (fun o ho => ha o (List.mem_of_mem_drop ho))
+  rw [hfin T id]
+  have hc := run_coherent _ hp (coherent_restart (crashAt {} ops k j)) (ops.drop (k + 1)) T id
+  rcases hc with h | ⟨h, _⟩
+  · exact h.symm
+  · exfalso
+    rw [run_closed] at h
+    have hu : dormant (survived ops k (crashDone ops k j)) T = true := by
+      unfold dormant survived
+      have := run_closed (run {} (recorded ops k (crashDone ops k j))) (ops.drop (k + 1)) T
+      rw [← run_append, run_closed] at this
+      rw [this]
+      exact dormantFrom_mono T _ _ _ (by intro hh; cases hh) h
+    rw [hlive] at hu; cases hu
+
+/-- **Counterexample (finding `notify-before-persist`)**: one CRITICAL event, process death after the handlers
+were told and before the transaction: the id resumes as OK and ends OK, the handlers' last word is CRITICAL.
+Replayed on the real code by corpus/C08/finding-notify-before-persist.ops. -/
+theorem handlers_misled_in_window : ¬ handlers_not_misled_stmt := by
+  intro h
+  have := h [Op.collect "t" "a" 3 1] (by decide) 0 3 "t" "a" (by decide)
+  revert this
+  decide
+
+/-! ### The alert node (anonymous + named topic): counterexamples found by the model, replayed on the real code -/
+
+def bothTopics : Cfg := { anon := some "anon", named := some "named", sco := false, noRec := false }
+
+/-- The level handlers of topic `T` were last told vs. the level the id ends in on `T`, for a node-level history
+with a crash at sub-step `j` of point `k`. -/
+def nodeMisled (cfg : Cfg) (pts : List NOp) (k j : Nat) (T id : String) : Bool :=
+  let r := nrecover cfg {} pts k j
+  lastTold r.svc.told T id != r.svc.mem.level T id
+
+/-- The classic: the node's handlers are told CRITICAL, the process dies before the transaction, the next point is
+OK: the restarted node resumes at OK, sees no change, emits NO recovery event — ever. -/
+theorem node_recovery_never_announced :
+    nodeMisled { bothTopics with named := none } [.point "a" 3 1, .point "a" 0 2] 0 4 "anon" "a" = true := by
+  decide
+
+/-- **Counterexample (finding `two-topic-split`)**, at a POST-commit crash point: CRITICAL recorded on both topics,
+then OK: the anonymous topic's transaction (which clears the record) commits, the process dies before the named
+topic's `Collect`. After the restart `restoreEvent` finds only the named topic's CRITICAL and copies it back to the
+anonymous topic and into the node: with `stateChangesOnly` the next CRITICAL point is "unchanged" and is never
+announced — the handlers of the anonymous topic were last told OK while the id is CRITICAL. -/
+theorem node_two_topic_split_phantom :
+    nodeMisled { bothTopics with sco := true } [.point "a" 3 1, .point "a" 0 2, .point "a" 3 3] 1 5 "anon" "a" = true := by
+  decide
+
+/-! ### Non-vacuity -/
+
+/-- a non-trivial history with a recovery, a dormant topic restored on reuse, a crash inside and after operations -/
+example :
+    let ops := [Op.collect "t" "a" 3 1, Op.collect "t" "b" 2 2, Op.closeTopic "t", Op.collect "t" "a" 0 3,
+                Op.collect "u" "a" 1 4]
+    (∀ op ∈ ops, op.announced = true) ∧
+    inWindow ops 3 2 = false ∧ inWindow ops 3 3 = true ∧ crashDone ops 3 4 = true ∧ crashDone ops 3 3 = false ∧
+    dormant (survived ops 3 (crashDone ops 3 4)) "t" = false ∧
+    lastLevel (recorded ops 3 false) "t" "a" = 3 ∧ lastLevel (recorded ops 3 true) "t" "a" = 0 ∧
+    (recover {} ops 1 4).mem.level "t" "b" = 2 ∧ (recover {} ops 3 3).mem.level "t" "a" = 3 := by
+  decide
+
 end Kap.Props.C08
